@@ -3,7 +3,7 @@ import os
 from .. import guards, scalar
 from .. import buildmodel as bm
 
-EXPL = ('(R-POLY/tables) the set-up code of the interleaved w-NAF multiplications is executed with concrete control and symbolic group values: in G2::multiply_frobenius digit stream j is recoded from c[j] and table j is filled from (sign(x) psi)^j (a) = [|x|^j] a on every path (an unfilled table only where its stream is empty); in G1::multiply_endomorphism both streams come from (c0, c1) and the table from a; WnafTable::fill_table gives table[k] = (2k+1) base for every instantiation. (R-WORDALG/c++) decompose_lambda is executed at word level: on every path (+-c0) + lambda (+-c1) - k is a multiple of r identically in k AND in the rounded quotient (the lattice vectors are in the kernel of (a,b) -> a + lambda b, so only the exactness of the recombination matters: products, the add-back of round(b1), the ordered subtractions and the signs), with floordiv_by_fr_p_value replaced by an arbitrary value after checking that it writes only its result; PowersOfX::decompose recombines to y modulo r on every path (64-bit-word configurations). Partial claim: the recoding as a value is NOT decided. Decided: '
+EXPL = ('(R-POLY/tables) the set-up code of the interleaved w-NAF multiplications is executed with concrete control and symbolic group values: in G2::multiply_frobenius digit stream j is recoded from c[j] and table j is filled from (sign(x) psi)^j (a) = [|x|^j] a on every path (an unfilled table only where its stream is empty); in G1::multiply_endomorphism both streams come from (c0, c1) and the table from a; WnafTable::fill_table gives table[k] = (2k+1) base for every instantiation. (R-WORDALG/c++) decompose_lambda is executed at word level: on every path (+-c0) + lambda (+-c1) - k is a multiple of r identically in k AND in the rounded quotient (the lattice vectors are in the kernel of (a,b) -> a + lambda b, so only the exactness of the recombination matters: products, the add-back of round(b1), the ordered subtractions and the signs), with floordiv_by_fr_p_value replaced by an arbitrary value after checking that it writes only its result; PowersOfX::decompose recombines to y modulo r on every path (64-bit-word configurations). (R-WORDALG/c++, recoding step) one iteration of WnafScalar::from_bigint from an arbitrary state satisfies c_old == u + 2 c_new exactly (byte-level reads and writes, the subtract / add-back with its lost top bit re-inserted after the shift, the comparison deciding the wrap), stores u at wnaf[i] with |u| <= 2^w - 1 and advances i by one; with c == scalar before the loop and c == 0 at its exit the digits recombine to the scalar for every scalar. Decided: '
         '(R-DISPATCH) on the resolved call graph of every instantiation, no function that handles a point not yet known '
         'to be in the order-r subgroup (subgroup test, cofactor clearing in sampling and identity derivation, hash-to-curve) '
         'can reach a multiplication that is only valid on the subgroup (GLV endomorphism, Frobenius base-|x|, their '
@@ -18,13 +18,15 @@ EXPL = ('(R-POLY/tables) the set-up code of the interleaved w-NAF multiplication
 def run(ctx):
     ctx.explanation = EXPL
     ctx.level = 'other'
-    ctx.assumptions = ['the w-NAF recoding as a value (digits recombine to the scalar) is not decided; the size of the GLV halves (a performance matter: both are recoded at 256 bits) is not decided; on 32-bit-word configurations the bit-serial division inside PowersOfX::decompose is not decided; psi(P) = [x]P on G2 is assumed']
+    ctx.assumptions = ['the w-NAF recoding is decided as an inductive step (one iteration from an arbitrary state) plus the statements before the loop; the conclusion sum wnaf[j] 2^j == scalar is the telescoping argument stated in the rule, the number of iterations (at most bits+1) is covered by R-BOUNDS / R-CARRY only; the size of the GLV halves (a performance matter: both are recoded at 256 bits) is not decided; on 32-bit-word configurations the bit-serial division inside PowersOfX::decompose is not decided; psi(P) = [x]P on G2 is assumed']
     for cfg, prog in ctx.programs().items():
         n = guards.rule_defout(ctx, cfg, prog, name_filter=lambda f: 'Fq12' not in f['qn'] and 'miller' not in f['qn'])
         ctx.floor('R-DEFOUT accumulation functions[%s]' % cfg, n, 4)
         from .. import cppword
         ng = cppword.rule_glv_decompose(ctx, cfg, prog)
         ng += cppword.rule_decompose(ctx, cfg, prog)
+        nw_ = cppword.rule_wnaf_step(ctx, cfg, prog)
+        ctx.floor('R-WORDALG/c++ recoding step instantiations[%s]' % cfg, nw_, 3)
         ctx.floor('R-WORDALG/c++ decomposition obligations[%s]' % cfg, ng, 1)
         scalar.rule_dispatch(ctx, cfg, prog)
         scalar.rule_carry(ctx, cfg, prog)
